@@ -15,4 +15,22 @@ CHECKS = {
  'C07': dict(
    text='TLC checks exhaustively that the ring-buffer design (RingDeque: vs/head/n, rotate-then-grow, one action per method, transcribed from queue.go) refines the abstract Deque for all capacities up to the bound; the explored state graph is emitted as operation paths (one per generated transition, covering every (cap, head, n) configuration) that are executed on the real queue.Queue together with seeded random/adversarial histories (incl. buffers beyond 256 elements); every recorded call and observation (Len, IsEmpty, Front, Peek at all offsets, Each with early stop, Slice) is validated by TLC against the Deque specification step by step.',
    ref='DESIGN.md 3 (C07)', note=TRUST, technique='TLA+ refinement model checking (TLC) + TLC-generated path replay + trace validation against the abstract spec'),
+ 'C01': dict(
+   text='TLC checks exhaustively, for every history of Add/Replace/Remove/Clear over a small key universe and New from every subset, for beta in {0,250,500,750,1000}, that the scapegoat design (Scapegoat.tla: insert with depth limit and goat search, DSW rebuild by vine rotations, popMinRight removal, shrink rebuild; transcribed from stree.go/node.go) refines the abstract SortedSet (contents with representatives, every boolean result). The state graph is emitted as one operation path per generated transition and executed on the real stree.Tree together with seeded adversarial histories (sorted/reverse/zig-zag/drain/two-child removals/bulk New with duplicates/clone forks, comparators of arbitrary magnitude, reversed order); every call and every observation (Len, IsEmpty, Get, Min, Max, Inorder and InorderAfter with early stop) is validated by TLC against SortedSet step by step.',
+   ref='DESIGN.md 3 (C01)', note=TRUST, technique='TLA+ refinement model checking (TLC) + TLC-generated path replay + trace validation against the abstract spec'),
+ 'C02': dict(
+   text='TLC checks the exact depth bound (2000/(1000+beta))^(height-1) <= P (big-integer arithmetic in BigNat.tla, no floating point) as an invariant of the Scapegoat model in every reachable state, and that Extract yields minimum height; on the real tree the height measured through Root/Left/Right cursors after EVERY operation, the comparator calls of every Get, and the height after New are validated by TLC (BalanceTrace) against the same bound with P tracked as a history variable, over TLC-generated paths plus adversarial insertion orders up to 600 keys and beta up to 999.',
+   ref='DESIGN.md 3 (C02)', note=TRUST, technique='TLA+ invariant model checking (TLC) + trace validation of measured heights against an exact big-integer bound'),
+ 'C03': dict(
+   text='TLC checks on EVERY binary-tree shape up to the node bound and every node that the walk-up successor/predecessor algorithm of cursor.go equals the abstract move defined by key order, and the structural laws (Left smaller/Right larger, Up inverts Left/Right, Next/Prev mutually inverse, invalid cursors are inert). Every (shape, start, move) is replayed on a real tree of exactly that shape, plus seeded random move/clone sequences over two cursors on skewed trees; every Valid/Key/Has*/Inorder observation of both cursors is validated by TLC (TreeCursorTrace).',
+   ref='DESIGN.md 3 (C03)', note=TRUST, technique='TLA+ model checking over all tree shapes (TLC) + per-transition replay + trace validation'),
+ 'C04': dict(
+   text='TLC explores the OrderedMap specification (map + iterators with staleness) exhaustively over a small universe, checking iterator sanity, First..Next*/Last..Prev* enumeration and Seek/Prev laws, and emits one path per transition; these and seeded histories (delete-while-iterating, sweeps, zero Map, copies sharing contents, natural/reversed/difference comparators, fill-then-drain) run on the real omap.Map and every result and observation (Len, Keys, String, GetOK/Get, iterator validity/key/value) is validated by TLC (OrderedMapTrace).',
+   ref='DESIGN.md 3 (C04)', note=TRUST, technique='TLA+ model checking (TLC) + TLC-generated path replay + trace validation'),
+ 'C05': dict(
+   text='TLC checks that the corrected heap design (Heap.tla, Known={}) satisfies min-at-front, heap order and conservation for all histories within the bounds, and REFUTES the as-is design (Known={F1}, {F2}, {F1,F2}: the code as written) with counterexamples; paths from the as-is state graph and seeded histories run on the real heapq.Queue and are validated by TLC against the abstract PriorityBag (Front/Pop minimal, Remove(i)=Peek(i), conservation, Sort = sorted permutation). Rejections are attributed: only behaviour that the as-is model HeapTrace reproduces array-for-array is reported as KNOWN-FINDING (F1, F2); any other deviation is a VIOLATION.',
+   ref='DESIGN.md 3 (C05), 4', note=TRUST + ' Known findings F1, F2 are open (not repairable without editing TestHeap).', technique='TLA+ model checking incl. refutation of the as-is design (TLC) + trace validation against the abstract spec + as-is-model attribution of known findings'),
+ 'C06': dict(
+   text='TLC checks position tracking (PosOK: last reported position = offset for every tracked element; Add returns the offset) on both the corrected and the as-is heap model for all histories over distinct elements within the bounds; TLC-generated paths and seeded histories (incl. Remove at a reported position) run on the real queue with an update callback, and the callback log of every call is validated by TLC (PosTrace).',
+   ref='DESIGN.md 3 (C06)', note=TRUST, technique='TLA+ invariant model checking (TLC) + TLC-generated path replay + trace validation of callback logs'),
 }
